@@ -229,7 +229,7 @@ def call_shape(src, path):
         raise ExtractFail(where, "LOAD_DATA offset is not the segment's offset expression")
     if not re.search(r'", %lu\);\\n", \(unsigned long\) dataSegmentLength', flat) or "dataSegmentLength = dataSegment.bytes.length" not in flat:
         raise ExtractFail(where, "LOAD_DATA length is not the segment length")
-    if not re.search(r"if \(dataSegment\.passive\) \{", flat):
+    if not re.search(r"if \(!?dataSegment\.passive\) \{", flat):      # the exact per-segment logic is regenerated by gen_initmem.py
         raise ExtractFail(where, "passive segments are no longer distinguished")
     tb, tl = function_body(src, "wasmCWriteInitTables", path)
     tflat = re.sub(r"\s+", " ", tb)
